@@ -27,8 +27,8 @@ RULE = (
     "status, context) summed over (machine, engine)"
 )
 BOUNDS = {
-    "quick": "TREE(N<=4): 1139 machines + 9 parallel skeletons C(P(s1,s2),A) + 48 history skeletons C(X(H,s1,s2),A) x 3 engines, closure per machine; FOLLOW(N<=3)",
-    "thorough": "TREE(N<=5): 8086 machines + 54 parallel skeletons + 120 history skeletons x 3 engines, closure per machine; FOLLOW(N<=4)",
+    "quick": "TREE(N<=4): 1139 machines + 9 parallel skeletons C(P(s1,s2),A) + 56 history skeletons C(X(H,s1,s2),A) / C(P(owner,sibling),A) + 4 irregular larger trees (10-16 states) x 3 engines, closure per machine; FOLLOW(N<=3)",
+    "thorough": "TREE(N<=5): 8086 machines + 54 parallel skeletons + 132 history skeletons + 10 irregular larger trees x 3 engines, closure per machine; FOLLOW(N<=4)",
 }
 ASSUMPTIONS = [
     "canonical state = (configuration, history memory, status, context, output, error flag, actors); "
@@ -40,7 +40,8 @@ ENGINES = ("sync", "async", "pure")
 
 def units(tier: str) -> List[Any]:
     n = 4 if tier == "quick" else 5
-    us: List[Any] = [("tree", t) for t in F.trees_upto(n)]
+    us: List[Any] = [("tree", t) for t in F.big_skeletons(tier)]   # the large units first
+    us += [("tree", t) for t in F.trees_upto(n)]
     us += [("tree", t) for t in F.par_skeletons(tier)]
     us += [("tree", t) for t in F.hist_skeletons(tier)]
     us += [("follow", spec) for spec in follow.specs(3 if tier == "quick" else 4)]
